@@ -4042,9 +4042,14 @@ impl CanonicalizeContext {
 	
 		let mut parsed_mrow = top_of_stack.mrow;
 		assert_eq!( name(&top_of_stack.mrow), "mrow");
+		let mut saved_mrow_attrs = saved_mrow_attrs;
 		if parsed_mrow.children().len() == 1 && is_ok_to_merge_child {
 			parsed_mrow = top_of_stack.remove_last_operand_from_mrow();
 			// was synthesized, but is really the original top level mrow
+			if parsed_mrow.attribute("id").is_some() {
+				// the only child replaces the mrow -- an id given to the child must stay with it
+				saved_mrow_attrs.retain(|attr| attr.name().local_part() != "id");
+			}
 		}
 	
 		parsed_mrow.remove_attribute(CHANGED_ATTR);
